@@ -50,7 +50,7 @@ def gen_case(rng, routine):
         x = np.round(x * 4) / 4
     if routine == 'gni' and io['stop_method'] != 'fixed':
         io['max_iters'] = 1000
-    c = {'kind': routine, 'family': kind, 'x': x, 'imf_opts': io, 'envelope_opts': eo, 'extrema_opts': gens.ext_opts(rng)}
+    c = {'kind': routine, 'family': kind, 'x': x, 'imf_opts': io, 'envelope_opts': eo, 'extrema_opts': gens.ext_opts(rng, parabolic=True)}
     if routine in ('gni', 'sift') and rng.random() < .12:
         # raw counts: small non-negative integers (the deepest troughs are exactly 0), stored in an unsigned type
         v = np.round((x - x.min()) / max(np.ptp(x), 1e-12) * float(gens.pick(rng, [5, 8, 40, 200])))
@@ -126,6 +126,12 @@ def check_gni(ctx, case, wd=60):
             if base == 'raise':
                 ctx.count('base_raised')
                 return
+            if xo.get('parabolic_extrema'):
+                # parabolic refinement is not among the settings the property quantifies over: only the exact power-of-two / sign
+                # comparisons above are made with it (the padding loop's coverage test, min < 0 / max >= N, is not mirror-symmetric
+                # for fractional locations, so time reversal holds only approximately with refined extrema)
+                ctx.count('gni_parabolic_cases_exact_comparisons_only')
+                return
             meth = eo['interp_method']
             if g < (GUARD_LONG if long else GUARD):
                 ctx.count('gni_guard_excluded:' + meth)
@@ -179,9 +185,9 @@ def check_pad0(ctx, case):
     if isinstance(base, str):
         ctx.count('pad_width_0_rejected:' + base)
         for k, o in outs.items():
-            if not (isinstance(o, str) and o == base):
-                ctx.violation('pad0-outcome', 'get_next_imf(extrema_opts={pad_width: 0}) raises %s for the recording but %s for the %s recording'
-                              % (base, o if isinstance(o, str) else 'returns an IMF', k), case)
+            if not isinstance(o, str):      # (which error is raised may differ - upper or lower envelope fails first - rejection is what counts)
+                ctx.violation('pad0-outcome', 'get_next_imf(extrema_opts={pad_width: 0}) raises %s for the recording but returns an IMF for the %s recording'
+                              % (base, k), case)
                 return
         return
     scale = max(np.abs(x).max(), 1e-300)
@@ -220,6 +226,9 @@ def check_sift(ctx, case):
                     ctx.violation('sift-pow2-scale' + ('-neg' if c < 0 else ''),
                                   'sift(%g*x) is not bit-identical to %g*sift(x): shapes %s vs %s'
                                   % (c, c, 'raise' if isinstance(t, str) else t.shape, base.shape), dict(case, c=c))
+            if xo.get('parabolic_extrema'):
+                ctx.count('sift_parabolic_cases_exact_comparisons_only')
+                return
             # approximate: IMF by IMF until the guard band is hit
             meth = eo['interp_method']
             sc = np.abs(x).max()
